@@ -7,6 +7,15 @@ Engine/AndOr.vos Engine/AndOr.vok Engine/AndOr.required_vos: Engine/AndOr.v
 Engine/RecEngine.vo Engine/RecEngine.glob Engine/RecEngine.v.beautified Engine/RecEngine.required_vo: Engine/RecEngine.v Engine/AndOr.vo
 Engine/RecEngine.vio: Engine/RecEngine.v Engine/AndOr.vio
 Engine/RecEngine.vos Engine/RecEngine.vok Engine/RecEngine.required_vos: Engine/RecEngine.v Engine/AndOr.vos
+Infer/Table.vo Infer/Table.glob Infer/Table.v.beautified Infer/Table.required_vo: Infer/Table.v Ir/Syntax.vo
+Infer/Table.vio: Infer/Table.v Ir/Syntax.vio
+Infer/Table.vos Infer/Table.vok Infer/Table.required_vos: Infer/Table.v Ir/Syntax.vos
+Infer/Unify.vo Infer/Unify.glob Infer/Unify.v.beautified Infer/Unify.required_vo: Infer/Unify.v Ir/Syntax.vo Ir/Fold.vo Infer/Table.vo
+Infer/Unify.vio: Infer/Unify.v Ir/Syntax.vio Ir/Fold.vio Infer/Table.vio
+Infer/Unify.vos Infer/Unify.vok Infer/Unify.required_vos: Infer/Unify.v Ir/Syntax.vos Ir/Fold.vos Infer/Table.vos
+Ir/CouldMatch.vo Ir/CouldMatch.glob Ir/CouldMatch.v.beautified Ir/CouldMatch.required_vo: Ir/CouldMatch.v Ir/Syntax.vo Ir/Fold.vo
+Ir/CouldMatch.vio: Ir/CouldMatch.v Ir/Syntax.vio Ir/Fold.vio
+Ir/CouldMatch.vos Ir/CouldMatch.vok Ir/CouldMatch.required_vos: Ir/CouldMatch.v Ir/Syntax.vos Ir/Fold.vos
 Ir/Flags.vo Ir/Flags.glob Ir/Flags.v.beautified Ir/Flags.required_vo: Ir/Flags.v Ir/Syntax.vo
 Ir/Flags.vio: Ir/Flags.v Ir/Syntax.vio
 Ir/Flags.vos Ir/Flags.vok Ir/Flags.required_vos: Ir/Flags.v Ir/Syntax.vos
@@ -16,15 +25,39 @@ Ir/Fold.vos Ir/Fold.vok Ir/Fold.required_vos: Ir/Fold.v Ir/Syntax.vos
 Ir/Syntax.vo Ir/Syntax.glob Ir/Syntax.v.beautified Ir/Syntax.required_vo: Ir/Syntax.v 
 Ir/Syntax.vio: Ir/Syntax.v 
 Ir/Syntax.vos Ir/Syntax.vok Ir/Syntax.required_vos: Ir/Syntax.v 
+Logic/Contract.vo Logic/Contract.glob Logic/Contract.v.beautified Logic/Contract.required_vo: Logic/Contract.v Logic/Ground.vo
+Logic/Contract.vio: Logic/Contract.v Logic/Ground.vio
+Logic/Contract.vos Logic/Contract.vok Logic/Contract.required_vos: Logic/Contract.v Logic/Ground.vos
+Logic/Ground.vo Logic/Ground.glob Logic/Ground.v.beautified Logic/Ground.required_vo: Logic/Ground.v Logic/Sem.vo
+Logic/Ground.vio: Logic/Ground.v Logic/Sem.vio
+Logic/Ground.vos Logic/Ground.vok Logic/Ground.required_vos: Logic/Ground.v Logic/Sem.vos
 Logic/Program.vo Logic/Program.glob Logic/Program.v.beautified Logic/Program.required_vo: Logic/Program.v 
 Logic/Program.vio: Logic/Program.v 
 Logic/Program.vos Logic/Program.vok Logic/Program.required_vos: Logic/Program.v 
+Logic/Sem.vo Logic/Sem.glob Logic/Sem.v.beautified Logic/Sem.required_vo: Logic/Sem.v Logic/Program.vo
+Logic/Sem.vio: Logic/Sem.v Logic/Program.vio
+Logic/Sem.vos Logic/Sem.vok Logic/Sem.required_vos: Logic/Sem.v Logic/Program.vos
 Mem/InPlace.vo Mem/InPlace.glob Mem/InPlace.v.beautified Mem/InPlace.required_vo: Mem/InPlace.v 
 Mem/InPlace.vio: Mem/InPlace.v 
 Mem/InPlace.vos Mem/InPlace.vok Mem/InPlace.required_vos: Mem/InPlace.v 
+Props/C01.vo Props/C01.glob Props/C01.v.beautified Props/C01.required_vo: Props/C01.v Logic/Contract.vo
+Props/C01.vio: Props/C01.v Logic/Contract.vio
+Props/C01.vos Props/C01.vok Props/C01.required_vos: Props/C01.v Logic/Contract.vos
+Props/C02.vo Props/C02.glob Props/C02.v.beautified Props/C02.required_vo: Props/C02.v Logic/Contract.vo
+Props/C02.vio: Props/C02.v Logic/Contract.vio
+Props/C02.vos Props/C02.vok Props/C02.required_vos: Props/C02.v Logic/Contract.vos
+Props/C04.vo Props/C04.glob Props/C04.v.beautified Props/C04.required_vo: Props/C04.v Logic/Contract.vo
+Props/C04.vio: Props/C04.v Logic/Contract.vio
+Props/C04.vos Props/C04.vok Props/C04.required_vos: Props/C04.v Logic/Contract.vos
+Props/C18.vo Props/C18.glob Props/C18.v.beautified Props/C18.required_vo: Props/C18.v Ir/Syntax.vo Ir/CouldMatch.vo
+Props/C18.vio: Props/C18.v Ir/Syntax.vio Ir/CouldMatch.vio
+Props/C18.vos Props/C18.vok Props/C18.required_vos: Props/C18.v Ir/Syntax.vos Ir/CouldMatch.vos
 Props/C19.vo Props/C19.glob Props/C19.v.beautified Props/C19.required_vo: Props/C19.v Check/Priorities.vo
 Props/C19.vio: Props/C19.v Check/Priorities.vio
 Props/C19.vos Props/C19.vok Props/C19.required_vos: Props/C19.v Check/Priorities.vos
+Props/C24.vo Props/C24.glob Props/C24.v.beautified Props/C24.required_vo: Props/C24.v Text/LowerFail.vo Text/LowerFailFacts.vo
+Props/C24.vio: Props/C24.v Text/LowerFail.vio Text/LowerFailFacts.vio
+Props/C24.vos Props/C24.vok Props/C24.required_vos: Props/C24.v Text/LowerFail.vos Text/LowerFailFacts.vos
 Props/C25.vo Props/C25.glob Props/C25.v.beautified Props/C25.required_vo: Props/C25.v Ir/Syntax.vo Ir/Fold.vo
 Props/C25.vio: Props/C25.v Ir/Syntax.vio Ir/Fold.vio
 Props/C25.vos Props/C25.vok Props/C25.required_vos: Props/C25.v Ir/Syntax.vos Ir/Fold.vos
@@ -37,3 +70,9 @@ Props/C27.vos Props/C27.vok Props/C27.required_vos: Props/C27.v Mem/InPlace.vos
 Text/LowerFail.vo Text/LowerFail.glob Text/LowerFail.v.beautified Text/LowerFail.required_vo: Text/LowerFail.v 
 Text/LowerFail.vio: Text/LowerFail.v 
 Text/LowerFail.vos Text/LowerFail.vok Text/LowerFail.required_vos: Text/LowerFail.v 
+Text/LowerFailFacts.vo Text/LowerFailFacts.glob Text/LowerFailFacts.v.beautified Text/LowerFailFacts.required_vo: Text/LowerFailFacts.v Text/LowerFail.vo
+Text/LowerFailFacts.vio: Text/LowerFailFacts.v Text/LowerFail.vio
+Text/LowerFailFacts.vos Text/LowerFailFacts.vok Text/LowerFailFacts.required_vos: Text/LowerFailFacts.v Text/LowerFail.vos
+Text/LowerFailRun.vo Text/LowerFailRun.glob Text/LowerFailRun.v.beautified Text/LowerFailRun.required_vo: Text/LowerFailRun.v Text/LowerFail.vo
+Text/LowerFailRun.vio: Text/LowerFailRun.v Text/LowerFail.vio
+Text/LowerFailRun.vos Text/LowerFailRun.vok Text/LowerFailRun.required_vos: Text/LowerFailRun.v Text/LowerFail.vos
